@@ -553,7 +553,8 @@ func crashKinds() []string {
 }
 
 func genCrashCase(t *rapid.T) crashCase {
-	x := xcase{Chunk: rapid.OneOf(rapid.IntRange(16, 512), rapid.SampledFrom([]int{16, 64, 100})).Draw(t, "chunk")}
+	// (a few chunk sizes above one memory page and not a multiple of it: buffers of such sizes come from other pool classes)
+	x := xcase{Chunk: rapid.OneOf(rapid.IntRange(16, 512), rapid.SampledFrom([]int{16, 64, 100}), rapid.SampledFrom([]int{100, 4097, 5000, 6000})).Draw(t, "chunk")}
 	x.Tree = verifnet.GenTree(t, x.Chunk, verifnet.GenOpts{MaxFiles: 4, MinFiles: 1, MaxChunks: 12})
 	x.Streams = rapid.IntRange(1, 4).Draw(t, "streams")
 	x.Conns = 1
